@@ -260,7 +260,7 @@ PROPS = {
         "assumptions": ["untyped monitors here; typed monitors are covered with C20"],
     },
     "C03": {
-        "engines": [ctrl_engine("", ("C03", "C02"), 600, 10000)],
+        "engines": [ctrl_engine("", ("C03", "C02"), 600, 30000)],
         "rule": "ctrl engine: random server histories over 4 objects x 4 label sets, controller-level filters from the 9-filter family, "
                 "refresh periods {10s, 1m, 1h, 10000h}, list latencies {0, 100ms, period/4}, resource-version steps 1-3, and fault sequences "
                 "{stream closed, close right after a burst, Watch() errors k times, Watch() blocks until cancelled, status / bookmark / "
@@ -271,7 +271,7 @@ PROPS = {
                         "no watch buffer overflows (bursts of at most 8 events)"],
     },
     "C04": {
-        "engines": [ctrl_engine("c04", ("C04", "C03"), 600, 10000)],
+        "engines": [ctrl_engine("c04", ("C04", "C03"), 600, 30000)],
         "rule": "ctrl engine mode c04: refresh period 10000h (only the watch can deliver); faults injected at random positions of the "
                 "history incl. close immediately after a burst with the watcher delayed by log-point perturbation; after the reconnect "
                 "delay the cache must equal the server state; every Watch() must resume from a version the controller has received. "
@@ -280,7 +280,7 @@ PROPS = {
         "assumptions": ["as C03", "the changes one reconnect replays stay below EventBufsiz/4: overflow of the watch-side buffers (the code logs 'event missed') is a fault of the kind C03 covers, repaired by the next relist"],
     },
     "C14": {
-        "engines": [ctrl_engine("c14", ("C14",), 500, 8000), ctrl_engine("", ("C14",), 300, 4000)],
+        "engines": [ctrl_engine("c14", ("C14",), 500, 24000), ctrl_engine("", ("C14",), 300, 8000)],
         "rule": "ctrl engine mode c14: every failure kind {List error, nil, non-list object, *Status, list of non-objects} injected at "
                 "the k-th list, k = 1..4, amid the watch faults of C03, with a subscriber attached: Done, Error() class, Ready (iff k > 1) "
                 "and the subscriber's Done are checked; without an injected list failure the controller must keep running through every "
@@ -292,7 +292,7 @@ PROPS = {
         "engines": [
             {"go": "lister", "bin": "kconc", "driver": "lister", "actions": ("scenario", "lcfg", "llist", "lconsume", "end"),
              "classify": ctrl_cls(("C13", "C12")), "nontrivial": lambda l: l.startswith("(lstop"), "resets": ["scenario"]},
-            ctrl_engine("", ("C13",), 300, 4000),
+            ctrl_engine("", ("C13",), 300, 12000),
         ],
         "rule": "lister engine: the real lister+ticker alone in virtual time on the grid period {100ms, 1s, 1m} x latency/period "
                 "{0, .25, .5, .95, 1, 1.5, 3, 5} x consumption-delay/period {0, .1, .5, 1, 2} (quick: a third of it, thorough: all 120 points), "
@@ -327,7 +327,7 @@ PROPS = {
         "assumptions": ["a single writer (the controller / filtered-subscription goroutine is the only writer of its cache)"],
     },
     "C12": {
-        "engines": [tree_engine("c12", ("C12",), None, 1400, 14000), ctrl_engine("", ("C12",), 400, 6000),
+        "engines": [tree_engine("c12", ("C12",), None, 1400, 14000), ctrl_engine("", ("C12",), 400, 12000),
                     tree_engine("step,burst,stall,overflow", ("C12",), None, 600, 8000),
                     {"go": "lister", "bin": "kconc", "driver": "lister", "actions": ("scenario", "lcfg", "llist", "lconsume", "end"),
                      "classify": ctrl_cls(("C12",)), "nontrivial": lambda l: l.startswith("(lstop"), "resets": ["scenario"]}],
@@ -343,7 +343,7 @@ PROPS = {
     "C09": {
         "engines": [{"go": "join", "bin": "kconc", "driver": "join",
                      "actions": ("scenario", "jstart", "jsrc", "jmid", "jdst", "jrelease", "burst-begin", "burst-end", "jclose", "end"),
-                     "args_quick": ["-n", "360"], "args_thorough": ["-n", "5400"],
+                     "args_quick": ["-n", "360"], "args_thorough": ["-n", "16000"],
                      "classify": ctrl_cls(("C09",)), "resets": ["scenario"],
                      "nontrivial": lambda l: l.startswith("(jobs") and "(obj" in l}],
         "rule": "join engine: all eight generated joins and IngressPods (round robin) over two / three fake API servers; source objects with "
@@ -361,7 +361,7 @@ PROPS = {
         "engines": [
             {"go": "rest", "driver": "rest", "classify": ctrl_cls(("C20",)), "nontrivial": lambda l: l.startswith("(rest "), "resets": []},
             {"go": "typed", "bin": "kconc", "driver": "typed", "actions": ("scenario", "tstart", "tsrv", "end"),
-             "args_quick": ["-n", "120"], "args_thorough": ["-n", "2400"],
+             "args_quick": ["-n", "120"], "args_thorough": ["-n", "7200"],
              "classify": ctrl_cls(("C20",)), "resets": ["scenario"],
              "nontrivial": lambda l: l.startswith("(tobs") and ("(create (obj" in l or "(update (obj" in l or "(delete (obj" in l)},
         ],
